@@ -119,6 +119,12 @@ theorem C18_source_shape :
        "for err != nil && err != auctioneer.ErrClientShutdown", "return",
        "s.auctioneer.HandleServerShutdown( err, )"] := by decide
 
+/-- **The auth functions share no mutable state** (regenerated call-graph fact): `CommitAccount`, `AuthChallenge`,
+`AuthHash` and everything they call inside package account reference no package-level variable, so handshakes that
+hash at the same time (several clients, client and sidecar acceptor, client and auctioneer in one process) cannot
+disturb each other – each digest is the pure function of `C18_handshake_verifiable`. -/
+theorem C18_auth_stateless : Pool.Gen.C18.authPkgVarRefs = [] := by decide
+
 /-- the source contains the four repairs: the driver's model variant (read from the regenerated shapes) is the one
 the theorems below are about -/
 theorem C18_source_is_repaired : variantOfSource = Variant.fixed := by decide
@@ -183,80 +189,94 @@ theorem healthy_of_live {c : Client} (h : Live c) : Healthy c :=
   ⟨h.nodup, h.chaos, Or.inr ⟨h.isOpen, h.alive, h.perm, h.succ⟩⟩
 
 /-- The property's re-subscription clause over the model of variant `v`: from a healthy state with an open stream, a
-transport error or a shutdown notice while idle, any number `k` of refused reconnects, any map iteration order
-`pick`, and any faults of the model – transport errors (before the challenge, between challenge and subscribe, after
-the subscribe) and shutdown notices (before / after the challenge) – hitting the handshakes of the re-subscription and
-of the reconnects these cause in turn: afterwards the newest
-stream is alive and carries every previously subscribed account exactly once, acknowledged; the state is healthy
-again (so the statement iterates over any sequence of such faults). -/
+transport error or a shutdown notice while idle, any number `k` of refused reconnects, any numbers `fo` / `fb` of
+reconnect attempts that fail after a successful `Terms` probe (the stream open / the pending-batch check fails), any
+map iteration order `pick`, and any faults of the model – transport errors (before the challenge, between challenge
+and subscribe, after the subscribe) and shutdown notices (before / after the challenge) – hitting the handshakes of
+the re-subscription and of the reconnects these cause in turn: afterwards the newest stream is alive and carries every
+previously subscribed account exactly once, acknowledged; the state is healthy again (so the statement iterates over
+any sequence of such faults). -/
 def C18_resubscribed_statement (v : Variant) : Prop :=
   ∀ (pick : List Nat → List Nat), (∀ l, List.Perm (pick l) l) →
   ∀ (c : Client), Healthy c → c.isOpen = true → ∀ (op : Op), (op = .errIdle ∨ op = .shutIdle) →
-  ∀ (k : Nat) (beh : List Beh), FaultsOnly beh →
-    let c' := ((c.script k beh).step v pick op).1
+  ∀ (k fo fb : Nat) (beh : List Beh), FaultsOnly beh →
+    let c' := ((c.script k beh fo fb).step v pick op).1
     Healthy c' ∧ c'.cur.alive = true ∧ List.Perm c'.cur.subs c.accts ∧ c'.cur.success = c'.cur.subs ∧
       List.Perm c'.accts c.accts ∧ c.streams.length < c'.streams.length
 
 /-- **Re-subscribed exactly once – full strength, for the repaired code.**  No hypothesis about where the faults
 fall: a transport error that hits a handshake is absorbed by an inline reconnect that re-subscribes the whole map; a
-shutdown notice that hits a re-subscription makes the running reconnect start over with the whole map kept. -/
+shutdown notice that hits a re-subscription makes the running reconnect start over with the whole map kept; a
+reconnect attempt that fails at the stream open or the pending-batch check keeps the whole map and is retried by the
+main handler. -/
 theorem C18_resubscribed_once : C18_resubscribed_statement Variant.fixed := by
-  intro pick hpick c hH hopen op hop k beh ht c'
+  intro pick hpick c hH hopen op hop k fo fb beh ht c'
   obtain ⟨hnd, hch, hst⟩ := hH
   rcases hst with ⟨hcl, _⟩ | ⟨_, halive, _, _⟩
   · simp [hopen] at hcl
-  have hP := PHs_all pick hpick beh.length
-  have hopen' : (c.script k beh).isOpen = true := hopen
-  have halive' : (c.script k beh).cur.alive = true := halive
+  have hP := PHs_all pick hpick (beh.length + fo + fb)
+  have hopen' : (c.script k beh fo fb).isOpen = true := hopen
+  have halive' : (c.script k beh fo fb).cur.alive = true := halive
+  have hbl : (c.script k beh fo fb).beh = beh := rfl
+  have hfo : (c.script k beh fo fb).failOpen = fo := rfl
+  have hfb : (c.script k beh fo fb).failBatch = fb := rfl
   have fin : ∀ c2 : Client, Live c2 → List.Perm c2.accts c.accts → c.streams.length < c2.streams.length →
       Healthy c2 ∧ c2.cur.alive = true ∧ List.Perm c2.cur.subs c.accts ∧ c2.cur.success = c2.cur.subs ∧
       List.Perm c2.accts c.accts ∧ c.streams.length < c2.streams.length :=
     fun c2 hl hp hs => ⟨healthy_of_live hl, hl.alive, hl.perm.trans hp, hl.succ, hp, hs⟩
   rcases hop with rfl | rfl
-  · -- transport error while idle: reader → switch (not diverted) → main handler → HandleServerShutdown(err)
+  · -- transport error while idle: reader → switch (not diverted) → main handler → HandleServerShutdown(err), retried
     obtain ⟨f1, f2, _, _, f5, f6, _, _, _, f10, f11⟩ :=
-      setCur_fields (c.script k beh) (fun s => { s with alive := false })
-    let c1 : Client := { (c.script k beh).failStream with
-      mainErrs := (c.script k beh).failStream.mainErrs ++ [ErrClass.serverErrored] }
-    obtain ⟨c2, h, hl, hp, _, _, hs⟩ := hss_of_P pick hpick beh.length hP beh.length c1
-      (by show (c.script k beh).failStream.accts.Nodup; rw [Client.failStream, f1]; exact hnd)
-      (by show (c.script k beh).failStream.chaos = false; rw [Client.failStream, f5]; exact hch)
-      (by show (c.script k beh).failStream.failOpen = 0; rw [Client.failStream, f10]; rfl)
-      (by show (c.script k beh).failStream.failBatch = 0; rw [Client.failStream, f11]; rfl)
-      (by show FaultsOnly (c.script k beh).failStream.beh; rw [Client.failStream, f2]; exact ht)
-      (by show (c.script k beh).failStream.beh.length ≤ _; rw [Client.failStream, f2]; exact le_refl _)
-      (by show (c.script k beh).failStream.beh.length ≤ _; rw [Client.failStream, f2]; exact le_refl _)
-    have e : c' = { c2 with handlerRes := c2.handlerRes ++ [ErrClass.none_] } := by
-      have hbl : (c.script k beh).beh = beh := rfl
-      have hfo : (c.script k beh).failOpen = 0 := rfl
-      have hfb : (c.script k beh).failBatch = 0 := rfl
-      simp only [c', Client.step, hopen', halive', Bool.and_self, if_true, Client.mainHandler, hbl, hfo, hfb, Nat.add_zero]
-      simp only [hsF] at h
-      exact handlerLoop_ok _ _ _ c1 c2 h
-    have hl' : Live { c2 with handlerRes := c2.handlerRes ++ [ErrClass.none_] } :=
-      ⟨hl.isOpen, hl.alive, hl.perm, hl.succ, hl.nodup, hl.chaos, hl.fo, hl.fb⟩
+      setCur_fields (c.script k beh fo fb) (fun s => { s with alive := false })
+    let c1 : Client := { (c.script k beh fo fb).failStream with
+      mainErrs := (c.script k beh fo fb).failStream.mainErrs ++ [ErrClass.serverErrored] }
+    obtain ⟨c2, h, hl, hp, hs⟩ := handlerLoop_live pick hpick (beh.length + fo + fb) hP (beh.length + fo + fb) c1
+      (by show (c.script k beh fo fb).failStream.accts.Nodup; rw [Client.failStream, f1]; exact hnd)
+      (by show (c.script k beh fo fb).failStream.chaos = false; rw [Client.failStream, f5]; exact hch)
+      (by show FaultsOnly (c.script k beh fo fb).failStream.beh; rw [Client.failStream, f2]; exact ht)
+      (by show (c.script k beh fo fb).failStream.beh.length ≤ _; rw [Client.failStream, f2, hbl]; omega)
+      (by show (c.script k beh fo fb).failStream.failOpen + (c.script k beh fo fb).failStream.failBatch ≤ _
+          rw [Client.failStream, f10, f11, hfo, hfb]; omega)
+    have e : c' = c2 := by
+      simp only [c', Client.step, hopen', halive', Bool.and_self, if_true, Client.mainHandler, hbl, hfo, hfb]
+      exact h
     rw [e]
     have hp1 : List.Perm c2.accts c.accts := by
       refine hp.trans ?_
-      show List.Perm (c.script k beh).failStream.accts c.accts
+      show List.Perm (c.script k beh fo fb).failStream.accts c.accts
       rw [Client.failStream, f1]; exact List.Perm.refl _
     have hs1 : c.streams.length < c2.streams.length := by
       have : c1.streams.length = c.streams.length := by
-        show (c.script k beh).failStream.streams.length = _
+        show (c.script k beh fo fb).failStream.streams.length = _
         rw [Client.failStream, f6]; rfl
       omega
-    exact fin _ hl' hp1 hs1
-  · -- shutdown notice while idle: the reader goroutine runs HandleServerShutdown(nil) itself
-    obtain ⟨c2, h, hl, hp, _, _, hs⟩ := hss_of_P pick hpick beh.length hP beh.length (c.script k beh) hnd hch rfl rfl ht (le_refl _) (le_refl _)
-    have e : c' = c2 := by
-      have hbl : (c.script k beh).beh = beh := rfl
-      have hfo : (c.script k beh).failOpen = 0 := rfl
-      have hfb : (c.script k beh).failBatch = 0 := rfl
-      simp only [c', Client.step, hopen', halive', Bool.and_self, if_true, Client.readerShutdown, hbl, hfo, hfb, Nat.add_zero]
-      simp only [hsF] at h
-      rw [h]
-    rw [e]
-    exact fin _ hl hp hs
+    exact fin _ hl hp1 hs1
+  · -- shutdown notice while idle: the reader goroutine runs HandleServerShutdown(nil) itself; a failed attempt is
+    -- forwarded to the main handler, which retries
+    obtain ⟨c1, r, h, o⟩ := hss_of_P pick hpick (beh.length + fo + fb) hP (beh.length + fo + fb)
+      (c.script k beh fo fb) hnd hch ht (by rw [hbl]; omega) (by rw [hbl]; omega)
+    simp only [hsF] at h
+    simp only [ROutcome, hbl, hfo, hfb] at o
+    rcases o with ⟨rfl, hl, hp, _, _, _, _, hs⟩ | ⟨hf, _⟩ | ⟨hr, hnd1, hp1, hch1, hfo1, hfb1, hu, ht1, hl1, hs1⟩
+    · have e : c' = c1 := by
+        simp only [c', Client.step, hopen', halive', Bool.and_self, if_true, Client.readerShutdown, hbl, hfo, hfb]
+        rw [h]
+      rw [e]
+      exact fin _ hl hp hs
+    · exact absurd hf (by simp)
+    · obtain ⟨c2, h2, hl2, hp2, hs2⟩ := handlerLoop_live pick hpick (beh.length + fo + fb) hP (beh.length + fo + fb)
+        { c1 with mainErrs := c1.mainErrs ++ [ErrClass.other] } hnd1 hch1 ht1
+        (by show c1.beh.length ≤ _; omega)
+        (by show c1.failOpen + c1.failBatch ≤ _; omega)
+      have e : c' = c2 := by
+        simp only [c', Client.step, hopen', halive', Bool.and_self, if_true, Client.readerShutdown, hbl, hfo, hfb]
+        rw [h]
+        rcases hr with rfl | rfl <;> exact h2
+      rw [e]
+      exact fin _ hl2 (hp2.trans hp1)
+        (by have : c1.streams.length < c2.streams.length := hs2
+            have hs1' : c.streams.length ≤ c1.streams.length := hs1
+            omega)
 
 /-- a healthy three-account state used as witness below -/
 def witness3 : Client :=
@@ -272,6 +292,13 @@ example : FaultsOnly [.ok, .errBC, .errMid] ∧
     ((witness3.script 3 [.ok, .errBC, .errMid]).step Variant.fixed List.reverse .shutIdle).1.attempts = 7 ∧
     ((witness3.script 3 [.ok, .errBC, .errMid]).step Variant.fixed List.reverse .shutIdle).1.streams.length = 4 := by
   refine ⟨by intro b hb; simp at hb; rcases hb with rfl | rfl | rfl <;> simp, by decide +kernel, by decide +kernel, by decide +kernel⟩
+
+-- non-vacuity with failing reconnect attempts: shutdown notice; the first attempt's stream open fails, the second one's
+-- pending-batch check fails, the third one's first handshake is hit by a transport error (absorbed inline)
+example : (((witness3.script 2 [.errAC] 1 1).step Variant.fixed id .shutIdle).1.cur.subs = [0, 1, 2]) ∧
+    ((witness3.script 2 [.errAC] 1 1).step Variant.fixed id .shutIdle).1.mainErrs = [.other] ∧
+    ((witness3.script 2 [.errAC] 1 1).step Variant.fixed id .shutIdle).1.handlerRes = [.other, .none_] := by
+  decide +kernel
 
 /-- **Subscribing is resilient too (repaired code).**  A first or further `StartAccountSubscription`, with any faults
 of the model hitting its own handshake or the re-subscriptions of the reconnects they cause, leaves a healthy state
@@ -297,14 +324,17 @@ theorem C18_subscribe_resilient (pick : List Nat → List Nat) (hpick : ∀ l, L
     rw [this]
     exact ⟨Or.inl rfl, ⟨hnd, hch, hst⟩, by simp [Client.script, addAcct, ha]⟩
   · -- the live state the handshake starts from (after the first connect, if there is no stream yet)
-    have key : ∀ c0 : Client, Live c0 → c0.accts = c.accts → c0.beh = beh →
+    have key : ∀ c0 : Client, Live c0 → c0.accts = c.accts → c0.beh = beh → c0.failOpen = 0 → c0.failBatch = 0 →
         hsLevel Variant.fixed pick beh.length (c.script k beh) a = hsLevel Variant.fixed pick beh.length c0 a →
         (r.2 = .ok ∨ r.2 = .err) ∧
           Healthy r.1 ∧ List.Perm r.1.accts (addAcct c.accts a) := by
-      intro c0 hl h1 h2 heq
+      intro c0 hl h1 h2 hz1 hz2 heq
       obtain ⟨c', res, h, o⟩ := hP c0 a hl (by rw [h1]; exact ha) (by rw [h2]; exact ht) (by rw [h2])
       simp only [hsF] at h
-      rcases o with ⟨rfl, p⟩ | ⟨rfl, ab⟩
+      rcases o with ⟨rfl, p⟩ | ⟨rfl, ab⟩ | ⟨_, fl⟩
+      rotate_left 2
+      · -- no failing open / batch check is scripted
+        have := fl.used; omega
       · have : r = (c', .ok) := by
           simp only [r, Client.step, hbl, hfo, hfb, Nat.add_zero, heq]
           rw [h]
@@ -314,9 +344,13 @@ theorem C18_subscribe_resilient (pick : List Nat → List Nat) (hpick : ∀ l, L
         rw [h1] at this
         simpa [addAcct, ha] using this
       · -- the notice hit this very handshake: the stream's reader runs HandleServerShutdown(nil)
-        obtain ⟨c2, h2', hl2, hp2, _, _, _⟩ := hss_of_P pick hpick beh.length hP beh.length c' ab.nodup ab.chaos ab.fo
-          ab.fb ab.tr (by have := ab.len; rw [h2] at this; omega) (by have := ab.len; rw [h2] at this; omega)
+        obtain ⟨c2, r2, h2', o2⟩ := hss_of_P pick hpick beh.length hP beh.length c' ab.nodup ab.chaos
+          ab.tr (by have := ab.len; rw [h2] at this; omega) (by have := ab.len; rw [h2] at this; omega)
         simp only [hsF] at h2'
+        rcases o2 with ⟨rfl, hl2, hp2, _⟩ | ⟨hf, _⟩ | ⟨_, _, _, _, _, _, hu, _⟩
+        rotate_left
+        · exact absurd hf (by simp)
+        · have := ab.fo; have := ab.fb; omega
         have : r = (c2, .err) := by
           simp only [r, Client.step, hbl, hfo, hfb, Nat.add_zero, heq]
           rw [h]
@@ -329,13 +363,13 @@ theorem C18_subscribe_resilient (pick : List Nat → List Nat) (hpick : ∀ l, L
     rcases hst with ⟨hcl, hemp⟩ | ⟨hop, halive, hperm, hsucc⟩
     · have hcl' : (c.script k beh).isOpen = false := hcl
       have ha' : a ∉ (c.script k beh).accts := ha
-      refine key (c.script k beh).connectStream ?_ rfl rfl ?_
-      · refine ⟨rfl, rfl, ?_, rfl, ?_, hch, rfl, rfl⟩
+      refine key (c.script k beh).connectStream ?_ rfl rfl rfl rfl ?_
+      · refine ⟨rfl, rfl, ?_, rfl, ?_, hch⟩
         · show List.Perm [] c.accts; rw [hemp]
         · show c.accts.Nodup; exact hnd
       · cases beh.length <;>
           simp [hsLevel, Client.connectAndAuth, ha', hcl', Client.connectStream, hfo, hfb]
-    · exact key (c.script k beh) ⟨hop, halive, hperm, hsucc, hnd, hch, rfl, rfl⟩ rfl rfl rfl
+    · exact key (c.script k beh) ⟨hop, halive, hperm, hsucc, hnd, hch⟩ rfl rfl rfl rfl rfl
 
 /-- **The clause is false for the code before the repairs** (finding `resubscribe-abort-drops-accounts`, now fixed):
 three accounts, shutdown notice, the second re-subscription is hit by a transport error before the challenge – the
@@ -343,7 +377,7 @@ loop returns, the error reaches the main handler, which reconnects and re-subscr
 the map; account 2 is never subscribed again.  Replayed on the real client by corpus/C18/defects.json. -/
 theorem C18_resubscribed_orig_false : ¬ C18_resubscribed_statement Variant.orig := by
   intro h
-  have := h id (fun _ => List.Perm.refl _) witness3 witness3_healthy rfl .shutIdle (Or.inr rfl) 1 [.ok, .errBC]
+  have := h id (fun _ => List.Perm.refl _) witness3 witness3_healthy rfl .shutIdle (Or.inr rfl) 1 0 0 [.ok, .errBC]
     (by intro b hb; simp at hb; rcases hb with rfl | rfl <;> simp)
   have e : ((witness3.script 1 [.ok, .errBC]).step Variant.orig id .shutIdle).1.cur.subs = [0, 1] := by decide +kernel
   have h3 : List.Perm ((witness3.script 1 [.ok, .errBC]).step Variant.orig id .shutIdle).1.cur.subs witness3.accts :=
